@@ -37,6 +37,9 @@ class Call:
     def relation(self, w, vals):
         return ""
 
+    def after(self, w, s, res):
+        return []
+
     def __repr__(self):
         return self.label
 
@@ -67,13 +70,25 @@ class StoreObj(Call):
             return p, None
         if self.kind == "Path":
             return (w.module().Path(p) if w.mode != "native" else __import__("pathlib").Path(p)), None
+        if self.kind in ("stream", "bytesio"):
+            if self.offset is None:
+                n = len(w.contents[self.k])
+                w.ps.constrain(z3.And(OFFV >= 0, OFFV <= n))
+                self.off = w.ps.choose(OFFV, 0, n + 1)
+            else:
+                self.off = self.offset
         if self.kind == "stream":
-            f = w.shim.open(p, "rb") if w.mode != "native" else open(p, "rb")
-            f.seek(self.offset)
+            if w.mode != "native":
+                f = symfs.FakeFile.__new__(symfs.FakeFile)      # a caller-owned handle: opening it is not an
+                f._fs, f.name, f.mode, f._text = w.F, p, "rb", False   # operation of the call under test
+                f._pending, f._pos, f._writable, f._append, f._closed = [], 0, False, False, False
+            else:
+                f = open(p, "rb")
+            f.seek(self.off)
             return f, f
         if self.kind == "bytesio":
             f = io.BytesIO(w.contents[self.k])
-            f.seek(self.offset)
+            f.seek(self.off)
             return f, f
         raise ValueError(self.kind)
 
@@ -101,9 +116,24 @@ class StoreObj(Call):
         if st is not None and res in ("ok", "exists", "mismatch"):
             if st.closed:
                 bad.append(("caller-stream-closed", self.kind))
-            elif st.tell() != self.offset:
-                bad.append(("caller-stream-offset-moved", self.kind, self.offset, st.tell()))
+            elif st.tell() != self.off:
+                bad.append(("caller-stream-offset-moved", self.kind, self.off, st.tell()))
         return bad
+
+    def after(self, w, s, res):
+        if res != "ok":
+            return []
+        try:
+            st = s.retrieve_object(w.pids[self.i])
+            try:
+                got = st.read()
+            finally:
+                st.close()
+        except Exception as e:   # noqa
+            return [("stored-object-not-retrievable", type(e).__name__)]
+        if got != w.contents[self.k]:
+            return [("retrieved-bytes-differ-from-stored", got[:40])]
+        return []
 
     def relation(self, w, vals):
         return _rel_pid(w, vals, self.i) + ", content object %s" % (
@@ -342,6 +372,7 @@ class Raw(Call):
 
 # ---------------------------------------------------------------------------------------------- the step itself
 CALLV = z3.Int("call")
+OFFV = z3.Int("offset")
 
 
 def c04_formula(w, pre, post):
@@ -388,8 +419,10 @@ def run_step(ps, w, menu, extra_assume=None):
     except Exception as e:     # noqa
         res = w.classify(e)
         val = e
-    post = w.post()
     bad = []
+    for p in call.after(w, s, res):
+        bad.append(("round-trip:" + p[0], p[1:]))
+    post = w.post()
     for p in post["problems"]:
         bad.append(("store-state:" + p[0], p[1:]))
     ok, m = ps.valid(w.inv_post(post))
@@ -440,7 +473,7 @@ def run_step(ps, w, menu, extra_assume=None):
                err=(type(val).__name__ + ": " + str(val)[:160]) if isinstance(val, Exception) else None,
                ntrace=len(trace))
     if bad:
-        vals = ps.model_values(w.statevars + [CALLV])
+        vals = ps.model_values(w.statevars + [CALLV, OFFV])
         rec["vals"] = vals
         rec["relation"] = call.relation(w, vals)
     else:
@@ -480,7 +513,7 @@ def replay_native(w_args, menu_fn, vals, want_clauses):
     try:
         menu = menu_fn(w)
         pins = []
-        for v in w.statevars + [CALLV]:
+        for v in w.statevars + [CALLV, OFFV]:
             name = str(v)
             if name in vals:
                 x = vals[name]
